@@ -41,7 +41,7 @@ pub fn gen(group: &str, rng: &mut Rng, n: usize, out: &mut Vec<String>) {
 
 pub fn run(lane: &str, args: &[&str]) -> (String, Option<String>) {
     match lane {
-        "enc" | "parse" | "int" | "bool" => ber::run(lane, args),
+        "enc" | "parse" | "int" | "bool" | "lenhdr" => ber::run(lane, args),
         "frame" => frame::run(lane, args),
         "req" => req::run(lane, args),
         "conn" => conn::run(lane, args),
